@@ -77,14 +77,6 @@ fn single(ctx: &Ctx, rep: &mut Report, id: usize, cfg: Cfg, k: usize, leg: &str)
             }
         }
     }
-    // the documented recovery algorithm, evaluated independently, gives the same vector
-    if let Some(rp) = Parts::of(&proof).to_ref() {
-        let r = refbp::ref_recover(&case.transcript(), &case.ref_statement(), &rp, &case.seed.unwrap());
-        rep.count("reference_recoveries", 1);
-        if r != truth {
-            rep.violation(&format!("C09 reference-recovery-differs {sig}"), "the independent implementation of the documented recovery does not return the blinding vector (nonce derivation or layout differs)", replay.clone());
-        }
-    }
     rep.sample(GROUP, json!({"case": case.json(), "rng": format!("{kind:?}")}));
 }
 
